@@ -2766,6 +2766,15 @@ func (c *streamableClientConn) connectSSE(ctx context.Context, lastEventID strin
 				delay = calculateReconnectDelay(attempt + 1)
 				continue
 			}
+			if lastEventID != "" && isTransientHTTPStatus(resp.StatusCode) {
+				// A transient server error (502, 503, ...) on an attempt to resume
+				// a stream is a failed attempt like a transport error: try again
+				// within the retry budget instead of giving the stream up.
+				resp.Body.Close()
+				finalErr = fmt.Errorf("%s", http.StatusText(resp.StatusCode))
+				delay = calculateReconnectDelay(attempt + 1)
+				continue
+			}
 			return resp, nil
 		}
 	}
